@@ -191,6 +191,44 @@ func extractMonitorLocking(repo string) (map[string]bool, error) {
 // Transact, Monitor, MonitorCond, MonitorCondSince) or the field's declaration: a release and re-acquisition from
 // somewhere else (a callback, a helper, a function literal) takes the serial section apart without touching the
 // handlers.
+// extractNotifyCalls looks at every method called on an rpc2 client (a selector ending in "client" or a parameter of
+// type *rpc2.Client) in server/monitor.go: Call is counted, anything else (CallWithContext, Go, Notify, ...) is listed.
+func extractNotifyCalls(repo string) (other []string, calls int, err error) {
+	fset := token.NewFileSet()
+	f, err := parser.ParseFile(fset, filepath.Join(repo, "server", "monitor.go"), nil, 0)
+	if err != nil {
+		return nil, 0, err
+	}
+	ast.Inspect(f, func(n ast.Node) bool {
+		call, ok := n.(*ast.CallExpr)
+		if !ok {
+			return true
+		}
+		se, ok := call.Fun.(*ast.SelectorExpr)
+		if !ok {
+			return true
+		}
+		recv := ""
+		switch x := se.X.(type) {
+		case *ast.SelectorExpr:
+			recv = x.Sel.Name
+		case *ast.Ident:
+			recv = x.Name
+		}
+		if recv != "client" {
+			return true
+		}
+		switch se.Sel.Name {
+		case "Call":
+			calls++
+		default:
+			other = append(other, fmt.Sprintf("%s at %s", se.Sel.Name, fset.Position(call.Pos())))
+		}
+		return true
+	})
+	return other, calls, nil
+}
+
 func extractLockMentions(repo string) ([]string, error) {
 	fset := token.NewFileSet()
 	files, err := filepath.Glob(filepath.Join(repo, "server", "*.go"))
@@ -360,7 +398,28 @@ func driveC17(o opts) error {
 			fo3["detail"] = fmt.Sprintf("txnMutex is also used at %v; %s", stray, strings.TrimSpace(string(outb)))
 		}
 	}
-	w.Extra["fact_obligations"] = []interface{}{fo, fo2, fo3}
+	// fourth fact: a monitor is told of a transaction by a call that waits for the peer's answer for as long as it takes.
+	// (The model Srv/Serial has the notification inside the critical section; rpc2 serves each request of a peer in a
+	// goroutine of its own, so the answer awaited here is all that keeps two notifications to one peer in commit order.)
+	fo4 := map[string]interface{}{"name": "server/monitor.go: every message to a monitoring peer is an rpc2 Call (synchronous, no deadline)", "ok": false}
+	if other, calls, err := extractNotifyCalls(repo); err != nil {
+		fo4["detail"] = "extraction failed: " + err.Error()
+	} else {
+		src := "From Coq Require Import List Arith.\nImport ListNotations.\n(* generated from server/monitor.go on every run *)\n" +
+			fmt.Sprintf("Definition notify_calls : nat := %d.\nDefinition notify_other : nat := %d.\n", calls, len(other)) +
+			"Lemma notifications_are_awaited : notify_other = 0 /\\ 3 <= notify_calls.\nProof. split; [reflexivity|repeat constructor]. Qed.\n"
+		_ = os.WriteFile(filepath.Join(o.out, "facts_C17_notify.v"), []byte(src), 0o644)
+		cmd := exec.Command("coqc", "facts_C17_notify.v")
+		cmd.Dir = o.out
+		outb, err := cmd.CombinedOutput()
+		fo4["extracted"] = map[string]interface{}{"calls": calls, "other": other}
+		if err == nil && len(other) == 0 && calls >= 3 {
+			fo4["ok"] = true
+		} else {
+			fo4["detail"] = fmt.Sprintf("%d Call(s); other ways of sending: %v; %s", calls, other, strings.TrimSpace(string(outb)))
+		}
+	}
+	w.Extra["fact_obligations"] = []interface{}{fo, fo2, fo3, fo4}
 
 	sc := c17Schema()
 	for ci := 0; ci < ncases; ci++ {
